@@ -255,6 +255,8 @@ func safeVMRun(m *vm.VM, p *vm.Program, env interface{}) (o Outcome) {
 			o.Panic = r
 		}
 	}()
+	runner.LibEnter()
+	defer runner.LibLeave()
 	o.Val, o.Err = m.Run(p, env)
 	return
 }
